@@ -80,16 +80,10 @@ class Explorer:
             r = self._check_as_int(extra)
             if r == z3.unknown:
                 r = self.solver.check(*extra)
-        elif INT_FALLBACK and self.timeout_ms > FAST_MS:
-            # staged: a short bit-vector attempt, then the integer restatement, then the bit-vector solver with the full budget
-            self.solver.set("timeout", FAST_MS)
+        elif INT_FALLBACK:
             r = self.solver.check(*extra)
             if r == z3.unknown:
                 r = self._check_as_int(extra)
-                if r == z3.unknown:
-                    self.solver.set("timeout", self.timeout_ms)
-                    r = self.solver.check(*extra)
-            self.solver.set("timeout", self.timeout_ms)
         else:
             r = self.solver.check(*extra)
         self.solver_time += time.time() - t
